@@ -25,7 +25,11 @@ ASSUMPTIONS = ['every sending stream is registered in EventsProcessor.streams (a
                'out of scope here) and stays open',
                'the peer obeys HTTP/2 (increments 1..2^31-1 without overflow, MAX_FRAME_SIZE in '
                '16384..2^24-1): otherwise h2 raises and grpclib closes the connection (model: `broken`)',
-               'one send_data per stream at a time']
+               'one send_data per stream at a time',
+               'Connection.resume_writing flushes what h2 has queued: no DATA frame of a sender is queued then '
+               '(send_data writes each frame at once: C07_source_sends_flushed_at_once; the correspondence '
+               'reports DATA frames arriving outside a run); frames of other code paths (reset_nowait RST) are '
+               'not flow-controlled and outside this model; the connection is not closing']
 
 MAXW = 2 ** 31 - 1
 LENS = [0, 0, 1, 1, 2, 5, 17, 100, 100, 1000, 5000, 16383, 16384, 16385, 40000, 65535, 65536, 100000, 200000]
@@ -170,7 +174,8 @@ def parse_model(line):
         chunks = [tuple(int(x) for x in c.split(':')) for c in ch.split(',')] if ch else []
         recs.append({'chunks': chunks, 'pcs': pcs, 'cw': int(cw),
                      'sws': [int(x) for x in sws.split(',')] if sws else [], 'mf': int(mf),
-                     'wr': wr == '1', 'broken': broken == '1'})
+                     'wr': wr == '1', 'broken': broken == '1',
+                     'outside': 0})     # the model emits only in Run ops (resume's flush writes no DATA)
     return recs
 
 
@@ -185,7 +190,7 @@ def impl_records(obs):
             chunks.append((i, off.get(i, 0), size))
             off[i] = off.get(i, 0) + size
         out.append({'chunks': chunks, 'pcs': r['pcs'], 'cw': r['cw'], 'sws': r['sws'], 'mf': r['mf'],
-                    'wr': r['wr'], 'broken': False})
+                    'wr': r['wr'], 'broken': False, 'outside': r.get('outside', 0)})
     return out
 
 
@@ -278,7 +283,8 @@ def oracle(case, obs):
 # ---- driver -------------------------------------------------------------------------------------
 
 def canon(recs):
-    return [(tuple(r['chunks']), r['pcs'], r['cw'], tuple(r['sws']), r['mf'], r['wr'], r['broken'])
+    return [(tuple(r['chunks']), r['pcs'], r['cw'], tuple(r['sws']), r['mf'], r['wr'], r['broken'],
+             r.get('outside', 0))
             for r in recs]
 
 
